@@ -2,7 +2,7 @@
    Only statements, each closed by `exact <lemma>`, followed by Print Assumptions. *)
 From Coq Require Import ZArith List Bool Lia Sorting.Sorted Permutation.
 From VZ Require Import Model.K01_CooAcc Proofs.K01_CooAcc_list Proofs.K01_CooAcc_arrays Proofs.K01_CooAcc_proofs
-  Proofs.K01_CooAcc_volume.
+  Proofs.K01_CooAcc_volume Proofs.K01_CooAcc_keys.
 Import ListNotations.
 Open Scope Z_scope.
 
@@ -331,3 +331,196 @@ Example C04_few_keys_example :
              (run_state 65536 32 10 evs)
   = Some (30, 2000, 3, 32).
 Proof. vm_compute. repeat split; reflexivity. Qed.
+
+(* ------------------------------------------------------------------ key preservation (Proofs/K01_CooAcc_keys.v) *)
+(* The theorems above speak about SUMS by key; an entry of value 0 (or values that cancel) is invisible to them.
+   These speak about the keys themselves: no operation of the accumulator loses a live key or invents one, i.e. no
+   co-occurrence event disappears or is credited to another cell, whatever its value.
+   One sort window (argsort + run-length summation), list level: *)
+Theorem C04_keys_preserved_window : forall seg k,
+  In k (map e_key (compress (sort_by_key seg))) <-> In k (map e_key seg).
+Proof.
+  intros seg k. rewrite (compress_keys (sort_by_key seg) k).
+  apply (same_keys_sym _ _ (same_keys_perm _ _ (sort_perm seg))).
+Qed.
+Print Assumptions C04_keys_preserved_window.
+
+(* coo_sum_duplicates (sort window + carry through the levels), array level, any state satisfying the invariant *)
+Theorem C04_keys_preserved_sum_duplicates : forall Q c,
+  stack_ok Q c -> ind c < cap c -> cnt (mn c) (depth c) + 1 < 2 ^ (zlen (mn c) - 1) ->
+  exists c', coo_sum_duplicates c = Ok c' /\ stack_ok Q c' /\
+             (forall k, In k (map e_key (live c')) <-> In k (map e_key (live c))) /\
+             (forall k, denote c' k = denote c k).
+Proof.
+  intros Q c H1 H2 H3. destruct (csd_ok Q c H1 H2 H3) as (c' & E & S & _ & _ & _ & _ & D & _).
+  exists c'. split; [exact E|]. split; [exact S|]. split; [exact (csd_keys Q c c' H1 H2 E)|exact D].
+Qed.
+Print Assumptions C04_keys_preserved_sum_duplicates.
+
+(* merge_sum_duplicates alone (the carry) *)
+Theorem C04_keys_preserved_merge : forall Q c c',
+  stack_ok Q c -> ind c <= cap c -> merge_sum_duplicates c = Ok c' ->
+  forall k, In k (map e_key (live c')) <-> In k (map e_key (live c)).
+Proof. exact msd_keys. Qed.
+Print Assumptions C04_keys_preserved_merge.
+
+(* merge_all_sum_duplicates: same set of live keys, strictly sorted afterwards, hence the new `ind` is exactly the
+   number of distinct keys that were live (nodup = the list without repetitions) *)
+Theorem C04_keys_preserved_merge_all : forall Q c,
+  stack_ok Q c -> ind c <= cap c -> cnt (mn c) (depth c) + 1 < 2 ^ (zlen (mn c) - 1) ->
+  Z.abs (nthZ (mn c) 0) = ind c ->
+  exists c', merge_all_sum_duplicates c = Ok c' /\ stack_ok Q c' /\
+             (forall k, In k (map e_key (live c')) <-> In k (map e_key (live c))) /\
+             StronglySorted Z.lt (map e_key (live c')) /\
+             ind c' = zlen (nodup Z.eq_dec (map e_key (live c))).
+Proof.
+  intros Q c H1 H2 H3 H4. destruct (ma_ind_distinct Q c H1 H2 H3 H4) as (c' & E & (S & _) & Hs & K & N).
+  exists c'. split; [exact E|]. split; [exact S|]. split; [exact K|]. split; [exact Hs|exact N].
+Qed.
+Print Assumptions C04_keys_preserved_merge_all.
+
+(* ------------------------------------------------------------------ the drivers' regime: capacity <= limit at allocation *)
+(* What key preservation buys.  A flush skips merge_all only if capacity - ind' > limit, and ind' >= the number of
+   distinct live keys.  coo_increase_mem runs right after a merge_all that left >= 0.95 * capacity DISTINCT keys, and
+   none of them is ever lost.  So a buffer allocated at most `limit` long (every driver-allocated buffer up to 65536
+   entries at the real threshold) keeps F = 0 - level counter <= 4, depth <= 3, whatever the number of events - through
+   every growth  cap -> grow_size limit cap  with  grow_size limit cap <= limit + ceil(0.95 * cap), and the volume budget
+   of C04_acc_total_volume is needed only from the first growth that violates this, with the length
+       driver_mlen fuel limit cap mlen
+   that coo_increase_mem has given `min` by then (grow_min_size iterated once per growth, as the model does; `fuel`
+   = how many growths are looked at, any value is sound).  At the drivers' allocation (capacity 32, |min| = 10,
+   limit 65536): capacities 32 -> 65537 -> 98306 -> 147459 -> 221188, |min| 10 -> 18 -> 30 -> 48 -> 75, budget
+   8 * #events + 6 * 65536 < 65536 * 2^74, i.e. 1.5e26 events per buffer (C04_driver_example) instead of 1.07e9.
+   The conclusion also states that the live keys are EXACTLY the keys of the events. *)
+Theorem C04_acc_total_driver : forall fuel limit cap mlen (evs : list entry),
+  1 <= limit -> 20 <= cap <= limit -> 4 <= mlen -> Forall (fun e => 0 <= e_key e) evs ->
+  8 * zlen evs + 6 * limit < limit * 2 ^ (driver_mlen fuel limit cap mlen - 1) ->
+  exists s, run limit cap mlen evs = Ok s /\
+            (forall k, denote s k = sumby evs k) /\
+            StronglySorted Z.lt (map e_key (live s)) /\
+            (forall k, In k (map e_key (live s)) <-> In k (map e_key evs)).
+Proof.
+  intros fuel limit cap mlen evs H1 H2 H3 H4 H5.
+  destruct (run_total_k (fun _ => True) limit cap mlen (driver_mlen fuel limit cap mlen) evs H1) as (s & E & D & S & _ & K);
+    [lia|exact H3| | |exact H5|].
+  - eapply Forall_impl; [|exact H4]. simpl. intros e He. split; [exact He|exact I].
+  - left. split; [lia|]. exists fuel. lia.
+  - exists s. split; [exact E|]. split; [exact D|]. split; [exact S|exact K].
+Qed.
+Print Assumptions C04_acc_total_driver.
+
+(* as the four drivers allocate the buffer: |min| = 2 * ceil(log2 capacity) (>= 10 for capacity >= 20) *)
+Theorem C04_acc_total_driver_default : forall fuel limit cap (evs : list entry),
+  1 <= limit -> 20 <= cap <= limit -> Forall (fun e => 0 <= e_key e) evs ->
+  8 * zlen evs + 6 * limit < limit * 2 ^ (driver_mlen fuel limit cap (2 * ceil_log2 cap) - 1) ->
+  exists s, (c <- appends limit (init_default cap) evs ;; finish c) = Ok s /\
+            (forall k, denote s k = sumby evs k) /\
+            StronglySorted Z.lt (map e_key (live s)) /\
+            (forall k, In k (map e_key (live s)) <-> In k (map e_key evs)).
+Proof.
+  intros fuel limit cap evs H1 H2 H3 H4.
+  apply (C04_acc_total_driver fuel limit cap (2 * ceil_log2 cap) evs H1 H2); [|exact H3|exact H4].
+  pose proof (default_mlen_ge cap ltac:(lia)). lia.
+Qed.
+Print Assumptions C04_acc_total_driver_default.
+
+Theorem C04_acc_cells_driver : forall fuel limit cap mlen mul (evs : list entry),
+  1 <= limit -> 20 <= cap <= limit -> 4 <= mlen ->
+  8 * zlen evs + 6 * limit < limit * 2 ^ (driver_mlen fuel limit cap mlen - 1) ->
+  Forall (fun e => 0 <= e_key e /\ 0 <= e_col e < mul /\ e_key e = e_col e + mul * e_row e) evs ->
+  exists s, run limit cap mlen evs = Ok s /\
+            (forall r c, 0 <= c < mul -> cell (live s) r c = cell evs r c) /\
+            StronglySorted Z.lt (map e_key (live s)) /\
+            (forall k, In k (map e_key (live s)) <-> In k (map e_key evs)).
+Proof.
+  intros fuel limit cap mlen mul evs H1 H2 H3 H4 H5.
+  apply (run_cells_k limit cap mlen (driver_mlen fuel limit cap mlen) mul evs H1); [lia|exact H3| |exact H4|].
+  - left. split; [lia|]. exists fuel. lia.
+  - eapply Forall_impl; [|exact H5]. intros [[[r c] v] k]. simpl. tauto.
+Qed.
+Print Assumptions C04_acc_cells_driver.
+
+Theorem C04_acc_indep_driver : forall f1 f2 l1 l2 cap1 cap2 m1 m2 (evs : list entry) s1 s2,
+  1 <= l1 -> 1 <= l2 -> 20 <= cap1 <= l1 -> 20 <= cap2 <= l2 -> 4 <= m1 -> 4 <= m2 -> Forall (fun e => 0 <= e_key e) evs ->
+  8 * zlen evs + 6 * l1 < l1 * 2 ^ (driver_mlen f1 l1 cap1 m1 - 1) ->
+  8 * zlen evs + 6 * l2 < l2 * 2 ^ (driver_mlen f2 l2 cap2 m2 - 1) ->
+  run l1 cap1 m1 evs = Ok s1 -> run l2 cap2 m2 evs = Ok s2 ->
+  (forall k, denote s1 k = denote s2 k) /\ map e_key (live s1) = map e_key (live s2).
+Proof.
+  intros f1 f2 l1 l2 cap1 cap2 m1 m2 evs s1 s2 H1 H2 H3 H4 M1 M2 H5 H6 H7 R1 R2.
+  destruct (C04_acc_total_driver f1 l1 cap1 m1 evs H1 H3 M1 H5 H6) as (t1 & E1 & D1 & S1 & K1).
+  destruct (C04_acc_total_driver f2 l2 cap2 m2 evs H2 H4 M2 H5 H7) as (t2 & E2 & D2 & S2 & K2).
+  rewrite R1 in E1. rewrite R2 in E2. inversion E1; inversion E2; subst.
+  split; [intros k; rewrite D1, D2; reflexivity|].
+  apply sorted_keys_unique; [exact S1|exact S2|]. intros k. rewrite K1, K2. reflexivity.
+Qed.
+Print Assumptions C04_acc_indep_driver.
+
+(* the live keys are exactly the events' keys also in the regime of C04_acc_total_volume (any capacity >= 20) *)
+Theorem C04_keys_preserved_run : forall limit cap mlen (evs : list entry),
+  1 <= limit -> 20 <= cap -> 4 <= mlen -> Forall (fun e => 0 <= e_key e) evs ->
+  8 * zlen evs + 6 * limit < limit * 2 ^ ((if cap <=? limit then grow_min_size mlen else mlen) - 1) ->
+  exists s, run limit cap mlen evs = Ok s /\
+            (forall k, In k (map e_key (live s)) <-> In k (map e_key evs)) /\
+            StronglySorted Z.lt (map e_key (live s)) /\
+            zlen (live s) = zlen (nodup Z.eq_dec (map e_key evs)).
+Proof.
+  intros limit cap mlen evs H1 H2 H3 H4 H5.
+  destruct (run_total_k (fun _ => True) limit cap mlen (volume_mlen limit cap mlen) evs H1 H2 H3) as (s & E & D & S & _ & K);
+    [|apply start_ok_volume|exact H5|].
+  - eapply Forall_impl; [|exact H4]. simpl. intros e He. split; [exact He|exact I].
+  - exists s. split; [exact E|]. split; [exact K|]. split; [exact S|].
+    apply (ssorted_count_distinct (live s) evs K S).
+Qed.
+Print Assumptions C04_keys_preserved_run.
+
+(* end to end (chunks by _generate_chunk_boundaries, one accumulator per chunk, matrices added) with driver-allocated
+   buffers: every chunk's buffer starts at most `limit` long *)
+Theorem C04_sizes_threads_irrelevant_driver :
+  forall (doc : Type) (events_of_doc : doc -> list entry) docs sizes n_threads limit fuel (capf mlenf : Z * Z -> Z) k,
+  length sizes = length docs -> 1 <= limit -> (forall ch, 20 <= capf ch <= limit) ->
+  Forall (fun e => 0 <= e_key e) (events_of doc events_of_doc docs) ->
+  (forall ch, 4 <= mlenf ch /\
+     8 * zlen (events_of doc events_of_doc docs) + 6 * limit
+     < limit * 2 ^ (driver_mlen fuel limit (capf ch) (mlenf ch) - 1)) ->
+  fold_right Z.add 0
+    (map (fun ch => acc_matrix limit (capf ch) (mlenf ch) (events_of doc events_of_doc (chunk_docs docs ch)) k)
+         (chunk_boundaries sizes n_threads))
+  = sumby (events_of doc events_of_doc docs) k.
+Proof.
+  intros doc f docs sizes n_threads limit fuel capf mlenf k H1 H2 H3 H4 H5.
+  apply (end_to_end_k doc f docs sizes n_threads limit capf mlenf
+           (fun ch => driver_mlen fuel limit (capf ch) (mlenf ch)) k H1 H2); [intros ch; apply H3|exact H4|].
+  intros ch. destruct (H5 ch) as [A B]. split; [exact A|]. split; [|exact B].
+  left. split; [apply H3|]. exists fuel. lia.
+Qed.
+Print Assumptions C04_sizes_threads_irrelevant_driver.
+
+(* non-vacuity of C04_acc_total_driver at the drivers' real allocation (capacity 32, |min| = 2 * ceil(log2 32) = 10,
+   COO_QUICKSORT_LIMIT = 65536): F = 0 is kept through the capacities 32, 65537, 98306, 147459 (|min| 10, 18, 30, 48);
+   the growth to 221188 gives |min| = 75, and the hypothesis holds for every event count up to 1.5e26 *)
+Example C04_driver_example : forall nev, 0 <= nev <= 150000000000000000000000000 ->
+  init_default 32 = init 32 10 /\ 1 <= 65536 /\ 20 <= 32 <= 65536 /\ 4 <= 10 /\
+  driver_mlen 8 65536 32 10 = 75 /\
+  (grow_size 65536 32, grow_size 65536 65537, grow_size 65536 98306, grow_size 65536 147459) = (65537, 98306, 147459, 221188) /\
+  8 * nev + 6 * 65536 < 65536 * 2 ^ (driver_mlen 8 65536 32 10 - 1).
+Proof.
+  intros nev H. split; [vm_compute; reflexivity|].
+  replace (driver_mlen 8 65536 32 10) with 75 by (vm_compute; reflexivity).
+  replace (2 ^ (75 - 1)) with 18889465931478580854784 by (vm_compute; reflexivity).
+  repeat split; try lia; vm_compute; reflexivity.
+Qed.
+
+(* ... and a run beyond the reach of C04_acc_total_volume, evaluated: limit 32 = capacity, |min| = 4, 3000 events over
+   200 cells (the volume hypothesis allows < 1000 there); the buffer grows 32 -> 48 -> 72 -> 108 -> 162 -> 243,
+   `min` 4 -> 9 -> 16 -> 27 -> 44 -> 69, depth stays 3 *)
+Example C04_driver_small_example :
+  let evs := map (fun i => let k := Z.of_nat i mod 200 in (k / 16, k mod 16, 1, k)) (seq 0 (Z.to_nat 3000)) in
+  zlen evs = 3000 /\ 4 <= 4 /\ 20 <= 32 <= 32 /\
+  ~ (8 * zlen evs + 6 * 32 < 32 * 2 ^ ((if 32 <=? 32 then grow_min_size 4 else 4) - 1)) /\
+  8 * zlen evs + 6 * 32 < 32 * 2 ^ (driver_mlen 8 32 32 4 - 1) /\
+  forallb (fun e => 0 <=? e_key e) evs = true /\
+  option_map (fun s => (zlen (live s), fold_right Z.add 0 (map e_val (live s)), cap s, zlen (mn s), depth s))
+             (run_state 32 32 4 evs)
+  = Some (200, 3000, 243, 69, 3).
+Proof. vm_compute. repeat split; try reflexivity; intros H; discriminate H. Qed.
